@@ -98,6 +98,10 @@ Definition dstep (top : nat) (a : action) (st : dstate) : option (obs * dstate) 
       end
   | AAbort name => Some (ONone, mkD (d_reqs st) (add_aborted name H))
   | AEvent _ _ => Some (ONone, st)
+  | ASpawn t =>
+      (* CommandContext::spawn: build the task, send it to the spawn queue; nothing runs yet *)
+      let (u, H1) := new_tflag H in
+      Some (ONone, mkD (d_reqs st) (ucmd top (fun cm => set_spawnq (c_spawnq cm ++ [mkT u (fs_of [] t)]) cm) H1))
   end.
 
 Fixpoint drun (top : nat) (acts : list action) (st : dstate) : option (list obs) :=
@@ -239,7 +243,7 @@ Definition cstep (hs : handlers) (a : action) (k : core) : option (obs * core) :
                          (set_nth i (mkRq (rq_eff r) true) (k_reqs k)))
       end
   | AAbort name => Some (ONone, setH (add_aborted name (k_H k)) k)
-  | AEffects | AEvents | AIsDone => Some (ONone, k)
+  | AEffects | AEvents | AIsDone | ASpawn _ => Some (ONone, k)
   end.
 
 Fixpoint crun (hs : handlers) (acts : list action) (k : core) : option (list obs) :=
